@@ -72,6 +72,11 @@ func (r *Reader) readBlock() error {
 	}
 	switch m := methodEncoding(r.header[hMethod]); m {
 	case encodedLZ4: // == encodedLZ4HC, as decompression is similar for both
+		if r.data == nil {
+			// Zero data size on a fresh reader: lz4 (assembly decoder) faults
+			// on a nil destination instead of reporting a short buffer.
+			r.data = []byte{}
+		}
 		n, err := lz4.UncompressBlock(r.raw[headerSize:], r.data)
 		if err != nil {
 			return errors.Wrap(err, "uncompress")
